@@ -176,8 +176,12 @@ class LaxBoundedSemaphore(_Semaphore):
                     cond.notify_all()
 
         def clear(self):
-            while self._value < self._initial_value:
-                _Semaphore.release(self)
+            # under the lock, like release(): the unlocked test let a
+            # concurrent release()/clear() push the value past the bound.
+            with self._cond:
+                if self._value < self._initial_value:
+                    self._value = self._initial_value
+                    self._cond.notify_all()
     else:
 
         def __init__(self, value=1, verbose=None):
